@@ -281,6 +281,12 @@ def check_slots(case):
     inner = 'REC(%s)' % sep.join(slots)
     text = inner if mode != 'nested' else 'ID(%s)+0*COUNT(1%s2)' % (inner, sep)
     env, calls = rec_env()
+    # the same parser has read all-blank lists of 4-6 slots before (in another separator style): what one formula's argument list was must not leak into the next
+    k = (n + sum(pat) + len(mode)) % 3
+    sep2 = SEPS[(SEPS.index(sep) + 1 + k) % 3]
+    for pre in ('REC(%s)' % (sep2 * (3 + k)), '{%s}' % (sep * 3), 'ID(%s)' % (sep2 * 2)):
+        env.parse(pre)
+    del calls[:]
     r = env.parse(text)
     if r['error'] is not None:
         raise Skip('rejected')
